@@ -598,6 +598,14 @@ def _default_format(x, spec):
 FORMAT_HOOK = [_default_format]
 
 
+def assume(cond):
+    """precondition anywhere in a harness (not only in the leading assert block): discards the path when it cannot hold"""
+    if ENGINE is not None:
+        ENGINE.assume(cond)
+    elif not cond:
+        raise PathAbort()
+
+
 def is_sym(x):
     return isinstance(x, (SymInt, SymBool))
 
